@@ -376,9 +376,14 @@ HttpHeader::append(const HttpHeader * src)
 bool
 HttpHeader::needUpdate(HttpHeader const *fresh) const
 {
+    String freshConnection;
+    (void)fresh->getList(Http::HdrType::CONNECTION, &freshConnection);
+
     for (const auto e: fresh->entries) {
         if (!e || skipUpdateHeader(e->id))
             continue;
+        if (freshConnection.size() && strListIsMember(&freshConnection, e->name, ','))
+            continue; // hop-by-hop by nomination
         String value;
         if (!hasNamed(e->name, &value) ||
                 (value != fresh->getByName(e->name)))
@@ -393,7 +398,10 @@ HttpHeader::skipUpdateHeader(const Http::HdrType id) const
     return
         // TODO: Consider updating Vary headers after comparing the magnitude of
         // the required changes (and/or cache losses) with compliance gains.
-        (id == Http::HdrType::VARY);
+        (id == Http::HdrType::VARY) ||
+        // RFC 9111 section 3.2: hop-by-hop fields of a 304 describe the
+        // connection that 304 arrived on; they do not update the stored reply
+        Http::HeaderLookupTable.lookup(id).hopbyhop;
 }
 
 void
@@ -405,10 +413,19 @@ HttpHeader::update(HttpHeader const *fresh)
     const HttpHeaderEntry *e;
     HttpHeaderPos pos = HttpHeaderInitPos;
 
+    // fields nominated by the 304's own Connection header are hop-by-hop too;
+    // merging them without that Connection header (skipped above as
+    // hop-by-hop) would make them end-to-end fields of the stored reply
+    String freshConnection;
+    (void)fresh->getList(Http::HdrType::CONNECTION, &freshConnection);
+    const auto nominated = [&freshConnection](const HttpHeaderEntry &entry) {
+        return freshConnection.size() && strListIsMember(&freshConnection, entry.name, ',');
+    };
+
     while ((e = fresh->getEntry(&pos))) {
         /* deny bad guys (ok to check for Http::HdrType::OTHER) here */
 
-        if (skipUpdateHeader(e->id))
+        if (skipUpdateHeader(e->id) || nominated(*e))
             continue;
 
         if (e->id != Http::HdrType::OTHER)
@@ -421,7 +438,7 @@ HttpHeader::update(HttpHeader const *fresh)
     while ((e = fresh->getEntry(&pos))) {
         /* deny bad guys (ok to check for Http::HdrType::OTHER) here */
 
-        if (skipUpdateHeader(e->id))
+        if (skipUpdateHeader(e->id) || nominated(*e))
             continue;
 
         debugs(55, 7, "Updating header '" << Http::HeaderLookupTable.lookup(e->id).name << "' in cached entry");
